@@ -82,7 +82,8 @@ def safe_run(check, case):
         res.setdefault("keys", {})
         if "event_digest" not in res:
             # result digest + every simulation counter (yield points, switches, jobs, solver calls ...)
-            res["event_digest"] = digest([res.get("digest"), sorted(res["stats"].items())])
+            res["event_digest"] = digest([res.get("digest"),
+                                          sorted((k, v) for k, v in res["stats"].items() if not k.startswith("nondet_"))])
         return res
     except _sched.HarnessError as e:
         return {"harness_error": f"{type(e).__name__}: {e}", "violations": [], "stats": {}, "keys": {}}
